@@ -335,7 +335,7 @@ spif_array_comp(spif_array_t self, spif_array_t other)
     spif_listidx_t i;
 
     SPIF_OBJ_COMP_CHECK_NULL(self, other);
-    for (i = 0; i < self->len; i++) {
+    for (i = 0; i < self->len && i < other->len; i++) {
         spif_cmp_t c;
 
         if (SPIF_OBJ_ISNULL(self->items[i]) && SPIF_OBJ_ISNULL(other->items[i])) {
@@ -350,7 +350,8 @@ spif_array_comp(spif_array_t self, spif_array_t other)
             return c;
         }
     }
-    return SPIF_CMP_EQUAL;
+    /* Equal over the common length:  the shorter array sorts first. */
+    return ((self->len < other->len) ? (SPIF_CMP_LESS) : ((self->len > other->len) ? (SPIF_CMP_GREATER) : (SPIF_CMP_EQUAL)));
 }
 
 static spif_array_t
